@@ -219,7 +219,7 @@ def run():
             sp = lpmgen.Space(*SPACES[space])
             spans += [(space, n, SPAN_TAG) for n in out2 if any(contains_v4(sp, x) for x in n)]
     log("[C03] GEN: %d subnet sets (+%d of the class %s)" % (len(sets), len(spans), SPAN_TAG))
-    nq, ns = (260, 50) if not thorough else (len(sets), 400)
+    nq, ns = (260, 50) if not thorough else (2500, 400)        # about 300 000 lookups; every 1-subnet set is always in
     rng.shuffle(sets)
     rng.shuffle(spans)
     # small sets first: every 1-subnet set is always included
